@@ -106,7 +106,7 @@ pub fn run(env: &Env, rep: &Report) {
     rep.set_rule("tie-free multi-object histories (no duplicate detections, distinct appearance per detection; predict plus skip / wasted / idle calls) x shard count 1..8 (voting shards 1..4) x a plan for every predict call that totally orders the Distances commands of all shard workers (FIFO per shard, interleaving chosen by the case) through gates on the command begin/end schedule points, plus delays. Oracle: records of the controlled run = records of the reference run (1 shard, free schedule), including track ids for Sort / VisualSort, up to id renaming for the batch trackers; wasted and idle sets equal; comparison cut at the first call whose decision margin (f64 shadow) is below 1e-4. Non-trivial: >= 2 shards, calls with >= 2 detections and >= 2 continuations, and at least one achieved plan whose order differs from the shard-by-shard default; distinct = distinct serialized case");
     rep.assume("schedules are forced at command granularity through the cfg(similari_verif) schedule points; gate waits are bounded (200 ms) and an expired wait only costs coverage (counted as plan_deviation)");
     let pool = IsoPool::new(&env.prop, "shards", std::time::Duration::from_secs(180));
-    let n = env.tier.pick(2_500, 30_000);
+    let n = env.tier.pick(4_000, 40_000);
     for kind in KINDS {
         par_generated(rep, "shards", move || shard_case(kind), n, workers(), iso_check(&pool, rep));
     }
